@@ -33,6 +33,9 @@ REV = {
  'fix: after a crash the allocators ignored': ('D1', [('C01','C01.R4')]),
  'fix: a crash during mkfs left a disk': ('D2', [('C01','C01.R5')]),
  'fix: READDIR/READDIRPLUS with a cookie that is not': ('D33', [('C11','C11.V9')]),
+ 'fix: the advertised wtmax was refused': ('D28', [('C19','C19.M2')]),
+ 'fix: an index block allocated for a write that then ran out': ('D37', [('C05','C05.F10')]),
+ 'fix: a commit the journal refused left its changes': ('D36', [('C09','C09.A8'),('C10','C10.W9'),('C05','C05.F9')]),
  'fix: Resize forgot a background shrink that was still pending': ('D7', [('C05','C05.F4'),('C12','C12.Z7')]),
  'fix: SETATTR of the size was accepted for directories': ('D35', [('C11','C11.V12'),('C04','C04.S7')]),
  'fix: Resize hands on the result of the in-transaction Shrink': ('D34', [('C05','C05.F1')]),
@@ -58,15 +61,7 @@ try:
                     fn=f'/verif/variants/{prop}__fixrevert_{d}.patch'
                     open(fn,'w').write(f'# variant: the defect {d} returns (reverse of fix commit "{subj}")\n# expect-rule: {rule}\n'+diff)
                     n+=1
-    # D15: revert both the D32 and the D15 commit
-    hs=[l.split(' ',1)[0] for l in log if l.split(' ',1)[1].startswith('fix: a WRITE aborted for lack of space') or l.split(' ',1)[1].startswith('fix: an aborted transaction left its changes')]
-    ok=True
-    for h in hs:
-        if sh('git','-C',wt,'revert','--no-commit',h).returncode!=0: ok=False
-    if ok and len(hs)==2:
-        diff=sh('git','-C',wt,'diff','HEAD').stdout
-        for prop,rule in [('C09','C09.A2'),('C10','C10.W4')]:
-            open(f'/verif/variants/{prop}__fixrevert_D15.patch','w').write('# variant: the defect D15 returns (Abort keeps the aborted mutations in the inode cache)\n# expect-rule: '+rule+'\n'+diff); n+=1
+    # D15: hand-made (variants/C09__fixrevert_D15.patch, C10__fixrevert_D15.patch): the plain revert no longer compiles
     sh('git','-C',wt,'reset','--hard','-q')
     print('wrote',n,'variant files')
 finally:
